@@ -37,16 +37,35 @@ type c19Case struct {
 	Docs   []c19Doc  `json:"docs"` // docs[0] = source, the rest are reference documents
 	Filter c19Filter `json:"filter"`
 	Keys   []string  `json:"keys"` // keys requested from impact analysis
+	// DefaultFilter (filter kind "all" only): WithKeyFilter is NOT called on the builders of the
+	// objects under test; they rely on the documented default (all keys).
+	DefaultFilter bool `json:"defaultFilter,omitempty"`
+	// Siblings: unrelated, differently configured analytics objects of the same process (history).
+	Siblings []c19Sibling `json:"siblings,omitempty"`
+}
+
+// c19Sibling is one family of differently configured objects, each from its own builder call: a
+// placeholder resolver with key filter Filter and placeholder matcher Matcher, an impact analysis
+// with key filter Filter and a dependency resolver with placeholder matcher Dep.
+// When "before": built (and, with Use, run on the source document) before the objects under test
+// are built; "between": after those were built and before they are run.
+type c19Sibling struct {
+	Filter  c19Filter `json:"filter"`
+	Matcher string    `json:"matcher,omitempty"` // "" (not set) | never | always | dollar
+	Dep     string    `json:"dep,omitempty"`     // "" (not set) | never | substring
+	When    string    `json:"when"`              // before | between
+	Use     bool      `json:"use,omitempty"`
 }
 
 func init() {
 	register(&Prop{ID: "C19", Run: c19Run,
-		Rule: "overlay source documents of 1-3 layers (built with Put, some layers with Populate) and 0-2 reference overlays over a prefix-free pool of 9 leaf paths (incl. nested containers and list items); values are typed scalars or templates mentioning pool keys that come later in a fixed order (acyclic), unknown keys, defaults (also nested), repeated mentions, the ${k:def} whole-value form, unterminated tails and (rarely) nested keys; key filters all/none/prefix/not/in; impact keys with repeats and unknown keys. Non-trivial: at least one value of the source or a reference mentions a merged key. Distinct = distinct canonical case JSON.",
+		Rule: "overlay source documents of 1-3 layers (built with Put, some layers with Populate) and 0-2 reference overlays over a prefix-free pool of 9 leaf paths (incl. nested containers and list items); values are typed scalars or templates mentioning pool keys that come later in a fixed order (acyclic), unknown keys, defaults (also nested), repeated mentions, the ${k:def} whole-value form, unterminated tails and (rarely) nested keys; key filters all/none/prefix/not/in (half of the all-cases leave the filter to the builders' default instead of setting it); impact keys with repeats and unknown keys; HISTORY: half of the cases have 1-2 sibling families of differently configured objects from their own builder calls (placeholder resolver with another key filter and, 2 in 5, another placeholder matcher never/always/contains-$; impact analysis with that filter; dependency resolver with, 3 in 10, another matcher never/substring), built and (3 in 4) run on the source document before the objects under test are built, or between their construction and their run; the objects under test are run again after everything else (even-numbered repeated runs), and sibling placeholder resolvers with the default matcher are held to the FailedKeys clause for their own filter. Non-trivial: at least one value of the source or a reference mentions a merged key. Distinct = distinct canonical case JSON.",
 		Assumptions: []string{
 			"the overlay itself (Put/Populate/Merged/Flatten/Layers) is not modelled here: the model functions take Merged().Flatten() and each layer's Flatten() as inputs, computed by the harness from the real overlay document (C06/C02 cover the overlay and flattening)",
 			"values mention leaf keys of the merged document and unknown keys only: a mention of a container/list position makes the PlaceholderResolver panic (v.(dom.Leaf)) and is outside the property's quantifier (DESIGN section 2); mentions are acyclic (a true cycle panics by contract)",
 			"the public DependencyResolverBuilder offers no key filter, so the dependency report is checked with the built-in matchAll; key filters are exercised on the placeholder report (impact analysis stores its filter but never consults it)",
-			"coordinate lists are compared as multisets (sorted by layer, path)"}})
+			"coordinate lists are compared as multisets (sorted by layer, path)",
+			"independence from process history is probed by at most 2 sibling families per case; every case first builds one family of objects with every option set explicitly to the documented default, so its outcome depends on its own history only and the recorded case replays in a fresh process; sibling reports are checked only for the default placeholder matcher"}})
 	evals["C19"] = c19Eval
 	shrinkers["C19"] = shrinkJSON
 }
@@ -136,6 +155,34 @@ func c19GenDoc(r *rand.Rand, names []string, maxLayers int) c19Doc {
 	return d
 }
 
+func c19GenFilter(r *rand.Rand) c19Filter {
+	switch r.Intn(5) {
+	case 0:
+		return c19Filter{Kind: "prefix", Arg: pick(r, []string{"d", "d.", "l", "k"})}
+	case 1:
+		return c19Filter{Kind: "not", Arg: pick(r, c19Pool)}
+	case 2:
+		return c19Filter{Kind: "in", Arg: pick(r, c19Pool) + "," + pick(r, c19Pool) + "," + pick(r, c19Pool)}
+	case 3:
+		return c19Filter{Kind: "none"}
+	}
+	return c19Filter{Kind: "all"}
+}
+
+func c19GenSibling(r *rand.Rand) c19Sibling {
+	sb := c19Sibling{Filter: c19GenFilter(r), When: "before", Use: r.Intn(4) > 0}
+	if r.Intn(5) < 2 {
+		sb.Matcher = pick(r, []string{"never", "always", "dollar"})
+	}
+	if r.Intn(10) < 3 {
+		sb.Dep = pick(r, []string{"never", "substring"})
+	}
+	if r.Intn(3) == 0 {
+		sb.When = "between"
+	}
+	return sb
+}
+
 func c19Run(c *Ctx) {
 	r := c.Rng
 	for i := 0; i < c.N(2000); i++ {
@@ -159,6 +206,14 @@ func c19Run(c *Ctx) {
 			cs.Filter = c19Filter{Kind: "none"}
 		default:
 			cs.Filter = c19Filter{Kind: "all"}
+		}
+		if cs.Filter.Kind == "all" && r.Intn(2) == 0 {
+			cs.DefaultFilter = true
+		}
+		if r.Intn(2) == 0 {
+			for j := 1 + r.Intn(2); j > 0; j-- {
+				cs.Siblings = append(cs.Siblings, c19GenSibling(r))
+			}
 		}
 		cs.Keys = []string{}
 		for j := r.Intn(7); j > 0; j-- {
@@ -257,14 +312,86 @@ func c19Strs(s []string) []any {
 	return out
 }
 
-// c19Observe runs the three report builders once.
-func c19Observe(docs []dom.OverlayDocument, f func(string) bool, keys []string) map[string]any {
-	dep := analytics.DefaultDependencyResolver().Resolve(docs[0], docs[1:]...)
-	dm := map[string]any{}
-	for k, cs := range dep.Map {
-		dm[k] = c19Coords(cs)
+// c19Objs are the three analytics objects under test.
+type c19Objs struct {
+	dep analytics.DependencyResolver
+	ph  analytics.PlaceholderResolver
+	imp analytics.ImpactAnalysis
+}
+
+// c19BuildObjs builds the objects under test, each from a fresh builder call. dflt: the key filter
+// is left to the builders' default (all keys) instead of being set.
+func c19BuildObjs(f func(string) bool, dflt bool) c19Objs {
+	pb := analytics.NewPlaceholderResolverBuilder()
+	ib := analytics.NewImpactAnalysisBuilder()
+	if !dflt {
+		pb = pb.WithKeyFilter(f)
+		ib = ib.WithKeyFilter(f)
 	}
-	ph := analytics.NewPlaceholderResolverBuilder().WithKeyFilter(f).Build().Resolve(docs[0])
+	return c19Objs{dep: analytics.DefaultDependencyResolver(), ph: pb.Build(), imp: ib.Build()}
+}
+
+func c19PhMatcher(kind string) func(string) bool {
+	switch kind {
+	case "never":
+		return func(string) bool { return false }
+	case "always":
+		return func(string) bool { return true }
+	case "dollar":
+		return func(s string) bool { return strings.Contains(s, "$") }
+	}
+	return c19HasPlaceholder
+}
+
+func c19DepMatcher(kind string) func(string) dom.SearchValueFunc {
+	switch kind {
+	case "never":
+		return func(string) dom.SearchValueFunc { return func(any) bool { return false } }
+	case "substring":
+		return func(k string) dom.SearchValueFunc {
+			return func(v any) bool { s, ok := v.(string); return ok && strings.Contains(s, k) }
+		}
+	}
+	return func(k string) dom.SearchValueFunc { return func(v any) bool { return c19Mentions(k, v) } }
+}
+
+// c19BuildSibling builds one family of differently configured objects; only the options the
+// sibling names are set (plus callbacks of its own), everything else is the builders' default.
+func c19BuildSibling(sb c19Sibling, calls *int) c19Objs {
+	pb := analytics.NewPlaceholderResolverBuilder().WithKeyFilter(c19FilterFn(sb.Filter)).
+		OnPlaceholderEncountered(func(string, string) { *calls++ }).
+		OnResolutionFailure(func(string, string, dom.Coordinates) { *calls++ })
+	if sb.Matcher != "" {
+		pb = pb.WithPlaceholderMatcher(c19PhMatcher(sb.Matcher))
+	}
+	db := analytics.NewDependencyResolverBuilder().OnPlaceholderEncountered(func(string, dom.Coordinates) { *calls++ })
+	if sb.Dep != "" {
+		db = db.PlaceholderMatcher(c19DepMatcher(sb.Dep))
+	}
+	ib := analytics.NewImpactAnalysisBuilder().WithKeyFilter(c19FilterFn(sb.Filter))
+	return c19Objs{dep: db.Build(), ph: pb.Build(), imp: ib.Build()}
+}
+
+// c19Neutral is the first thing a case does: one family of objects is built with EVERY option set
+// explicitly to what the documentation names as the default (no-op callbacks, all keys, the default
+// matchers). Whatever earlier cases of the same process configured, the outcome of a case then
+// depends on the case's own history only, so a recorded case replays in a fresh process.
+func c19Neutral() {
+	all := func(string) bool { return true }
+	analytics.NewPlaceholderResolverBuilder().WithKeyFilter(all).WithPlaceholderMatcher(c19HasPlaceholder).
+		OnPlaceholderEncountered(func(string, string) {}).
+		OnResolutionFailure(func(string, string, dom.Coordinates) {}).Build()
+	analytics.NewDependencyResolverBuilder().PlaceholderMatcher(c19DepMatcher("")).
+		OnPlaceholderEncountered(func(string, dom.Coordinates) {}).Build()
+	analytics.NewImpactAnalysisBuilder().WithKeyFilter(all).Build()
+}
+
+// c19Observe builds the three report builders and runs them once.
+func c19Observe(docs []dom.OverlayDocument, f func(string) bool, dflt bool, keys []string) map[string]any {
+	return c19RunObjs(c19BuildObjs(f, dflt), docs, keys)
+}
+
+func c19PhObs(ph *analytics.PlaceholderResolutionReport) map[string]any {
 	det := map[string]any{}
 	for _, k := range ph.FailedKeys {
 		var v W
@@ -289,7 +416,18 @@ func c19Observe(docs []dom.OverlayDocument, f func(string) bool, keys []string) 
 	if len(extra) > 0 {
 		phObs["keys-in-maps-but-not-failed"] = extra
 	}
-	imp := analytics.NewImpactAnalysisBuilder().WithKeyFilter(f).Build().ResolveOverlayDocument(docs[0], keys)
+	return phObs
+}
+
+// c19RunObjs runs the three objects once.
+func c19RunObjs(o c19Objs, docs []dom.OverlayDocument, keys []string) map[string]any {
+	dep := o.dep.Resolve(docs[0], docs[1:]...)
+	dm := map[string]any{}
+	for k, cs := range dep.Map {
+		dm[k] = c19Coords(cs)
+	}
+	phObs := c19PhObs(o.ph.Resolve(docs[0]))
+	imp := o.imp.ResolveOverlayDocument(docs[0], keys)
 	im := map[string]any{}
 	for k, cs := range imp {
 		im[k] = c19Coords(cs)
@@ -408,8 +546,49 @@ func c19Eval(c *Ctx, kind string, raw []byte) {
 		}
 		resolved[k] = ref
 	}
+	if cs.DefaultFilter && cs.Filter.Kind != "all" {
+		c.Dist("out-of-domain:default-filter-with-a-filter(skipped)")
+		return
+	}
+	// the history: neutral start, siblings built (and run) before / between, then the objects under
+	// test are run
 	var obs map[string]any
-	out, txt = guard(func() { obs = c19Observe(docs, f, cs.Keys) })
+	var objs c19Objs
+	type sibRun struct {
+		sb  c19Sibling
+		ph  map[string]any // the sibling's placeholder report (nil: not run, or out of domain)
+		bad string         // unexpected panic text
+	}
+	var sibs []*sibRun
+	sibCalls := 0
+	runSiblings := func(when string) {
+		for _, sb := range cs.Siblings {
+			if (sb.When == "between") != (when == "between") {
+				continue
+			}
+			sr := &sibRun{sb: sb}
+			sibs = append(sibs, sr)
+			so := c19BuildSibling(sb, &sibCalls)
+			if !sb.Use {
+				continue
+			}
+			o, t := guard(func() {
+				so.dep.Resolve(docs[0], docs[1:]...)
+				so.imp.ResolveOverlayDocument(docs[0], cs.Keys)
+				sr.ph = c19PhObs(so.ph.Resolve(docs[0]))
+			})
+			if o != "ok" && !strings.Contains(t, "is not dom.Leaf") {
+				sr.bad = t
+			}
+		}
+	}
+	out, txt = guard(func() {
+		c19Neutral()
+		runSiblings("before")
+		objs = c19BuildObjs(f, cs.DefaultFilter)
+		runSiblings("between")
+		obs = c19RunObjs(objs, docs, cs.Keys)
+	})
 	if out != "ok" && strings.Contains(txt, "is not dom.Leaf") {
 		c.Dist("out-of-domain:mention-of-container-position(skipped)")
 		return
@@ -419,6 +598,10 @@ func c19Eval(c *Ctx, kind string, raw []byte) {
 	}
 	c.Dist(fmt.Sprintf("layers:%d refs:%d", len(cs.Docs[0].Layers), len(cs.Docs)-1))
 	c.Dist("filter:" + cs.Filter.Kind)
+	if cs.DefaultFilter {
+		c.Dist("filter:all(left to the builder default)")
+	}
+	c.Dist(fmt.Sprintf("siblings:%d", len(sibs)))
 
 	// --- direct predicates, clause by clause from the quantifier text
 	dep := obs["dep"].(map[string]any)
@@ -458,14 +641,29 @@ func c19Eval(c *Ctx, kind string, raw []byte) {
 	sort.Strings(union)
 	c.Direct("AllKeys == OrphanKeys ⊎ keys(Map)", disjoint && canon(c19Strs(union)) == canon(all), map[string]any{"AllKeys": all, "OrphanKeys": orphans, "keys(Map)": sortedKeys(dmap)})
 	// FailedKeys == sorted{k | filter k, value(k) has a placeholder and Resolve(value) == value}
-	expFailed := []string{}
-	for _, k := range mkeys {
-		if f(k) && c19HasPlaceholder(tbl[k]) && resolved[k].S == tbl[k] {
-			expFailed = append(expFailed, k)
+	failedFor := func(f func(string) bool) []string {
+		exp := []string{}
+		for _, k := range mkeys {
+			if f(k) && c19HasPlaceholder(tbl[k]) && resolved[k].S == tbl[k] {
+				exp = append(exp, k)
+			}
 		}
+		return exp
 	}
+	expFailed := failedFor(f)
 	ph := obs["ph"].(map[string]any)
 	c.Direct("FailedKeys == sorted{k | value(k) has a placeholder and Resolve(value) == value}", canon(ph["failed"]) == canon(c19Strs(expFailed)), map[string]any{"FailedKeys": ph["failed"], "expected": expFailed})
+	// the same clause for every sibling placeholder resolver that was run with the default matcher:
+	// each report is the one of ITS OWN key filter
+	for i, sr := range sibs {
+		c.Dist("sibling:" + sr.sb.When + ":filter=" + sr.sb.Filter.Kind + ",matcher=" + sr.sb.Matcher + ",dep=" + sr.sb.Dep)
+		c.Direct("no-panic(sibling)", sr.bad == "", map[string]any{"sibling": i, "panic": sr.bad})
+		if sr.ph != nil && sr.sb.Matcher == "" {
+			exp := failedFor(c19FilterFn(sr.sb.Filter))
+			c.Direct("sibling resolver: FailedKeys == sorted{k | its filter passes k, value(k) has a placeholder and Resolve(value) == value}", canon(sr.ph["failed"]) == canon(c19Strs(exp)),
+				map[string]any{"sibling": i, "FailedKeys": sr.ph["failed"], "expected": exp})
+		}
+	}
 	if len(expFailed) > 0 {
 		c.Dist("ph:some-failed")
 	}
@@ -488,7 +686,14 @@ func c19Eval(c *Ctx, kind string, raw []byte) {
 	var other string
 	out, txt = guard(func() {
 		for i := 0; i < 20 && same; i++ {
-			if o := canon(c19Observe(docs, f, cs.Keys)); o != first {
+			var o string
+			if i%2 == 0 {
+				// the objects built first, run again after everything else was built and run
+				o = canon(c19RunObjs(objs, docs, cs.Keys))
+			} else {
+				o = canon(c19Observe(docs, f, cs.DefaultFilter, cs.Keys))
+			}
+			if o != first {
 				same, other = false, o
 			}
 		}
